@@ -112,7 +112,7 @@ def run(ctx):
     # R12a: creators
     n_paths = 0
     alloc_fns = [f for f in cr.fns.values() if f.d.get("impl_for") == "allocator::Allocator"]
-    ck.floor("impl Allocator functions", len(alloc_fns), 50)
+    ck.floor("impl Allocator functions", len(alloc_fns), 35)
     for f in sorted(alloc_fns, key=lambda x: x.path):
         be = block_effects(f, cr)
         if not be or all(all(c == "zerosize" for _, c, _ in v) for v in be.values()):
@@ -151,7 +151,7 @@ def run(ctx):
                 ok = own == 0 and (c["creators"] + c["paircreators"]) == 1
                 what = "wrapper: exactly one creator call and no effect of its own"
             ck.ob("R12a", key, ok, f"successful path of {f.path.split('::')[-1]}: {what}", site=f.where(0), detail=desc)
-    ck.floor("allocation path classes", n_paths, 25)
+    ck.floor("allocation path classes", n_paths, 18)
 
     check_restores(ck, cr, "R12b")
     ck.rule("R12e", "value-preserving restore: per-verdict accounting of maybe_restore_with_node and kind-matched classification of the preserved node")
@@ -181,11 +181,11 @@ def check_restores(ck, cr, R):
     for fname, vlen in sorted(fmap.items()):
         vec = vlen[len("len(self."):-1]
         res = ac.VEC_OF.get(vec)
-        tr = [e for e in efs if e.kind == "vec-shrink" and e.field == vec and e.amount is not None and canon_atom(e.amount) == f"cp.{fname}"]
+        tr = [e for e in efs if e.kind == "vec-shrink" and e.field == vec and e.amount is not None and rt.unparam(canon_atom(e.amount)) == f"$2.{fname}"]
         ga = [e for e in efs if e.kind == "ghost-add" and e.resource == res]
         good_ga = [e for e in ga if e.amount_s.replace("::len(&self.", "len(self.").replace(") Sub", " Sub").startswith("(")]
-        lin = [linear(e.amount) for e in ga]
-        want = ({f"len(self.{vec})": 1, f"cp.{fname}": -1}, 0)
+        lin = [rt.unparam(linear(e.amount)) for e in ga]
+        want = ({f"len(self.{vec})": 1, f"$2.{fname}": -1}, 0)
         ok = len(tr) == 1 and len(ga) == 1 and lin[0] == want and all(
             (e.b, -1 if e.idx == "T" else e.idx) < (tr[0].b, 10 ** 6) or rt.dominates(e.b, tr[0].b) for e in ga)
         ck.ob(R,f"restore_transparent_checkpoint|{vec}", ok,
@@ -198,12 +198,12 @@ def check_restores(ck, cr, R):
           detail=[e.what for e in efs])
     # restore_checkpoint
     efs = ac.effects(rc)
-    sets = {e.field: e.amount_s for e in efs if e.kind == "ghost-set"}
+    sets = {e.field: rc.unparam(e.amount_s) for e in efs if e.kind == "ghost-set"}
     for g in ("ghost_atoms", "ghost_pairs", "ghost_heap"):
-        ck.ob(R,f"restore_checkpoint|{g}", sets.get(g) == f"cp.{g}", f"restore_checkpoint sets {g} from cp.{g}",
+        ck.ob(R,f"restore_checkpoint|{g}", sets.get(g) == f"$2.{g}", f"restore_checkpoint sets {g} from cp.{g}",
               site=rc.where(0), detail=sets)
     calls = rc.calls_to(A + "restore_transparent_checkpoint")
-    arg_ok = bool(calls) and "cp.inner" in show(rc.expr_op(calls[0][1]["args"][1]))
+    arg_ok = bool(calls) and "$2.inner" in rc.unparam(show(rc.expr_op(calls[0][1]["args"][1])))
     ck.ob(R,"restore_checkpoint|inner", arg_ok, "restore_checkpoint restores the vectors through the transparent restore of cp.inner",
           site=rc.where(0), detail=[show(rc.expr_op(t["args"][1])) for _, t in calls])
     # order: the transparent restore ADDS what it truncates to the ghost counters, so the counters must be set from the
